@@ -2,8 +2,10 @@ import Skv.Drv.C08
 import Skv.Drv.C12
 import Skv.Drv.C04
 import Skv.Drv.C05
+import Skv.Drv.Compact
+import Skv.Drv.Store
 
-def drivers : List (String × LineDriver) := [("c08", c08Driver), ("c12", c12Driver), ("c04", c04Driver), ("c05", c05Driver)]
+def drivers : List (String × LineDriver) := [("c08", c08Driver), ("c12", c12Driver), ("c04", c04Driver), ("c05", c05Driver), ("ckey", ckeyDriver), ("ckey-judge", ckeyJudgeDriver), ("store", storeDriver)]
 
 def main (args : List String) : IO UInt32 := do
   match args with
